@@ -48,9 +48,7 @@ def gen_digest(seed, shard, lo, hi, fault_class):
 
     h = hashlib.sha256()
     for run in range(lo, hi):
-        rs = gen.run_seed(seed, shard, run)
-        prog = gen.gen_program(random.Random(rs), fault_class)
-        envs = gen.make_envs(prog["steps"])
+        prog, envs, _ = gen.program_for_run(seed, shard, run, fault_class)
         h.update(json.dumps([prog, envs], sort_keys=True).encode())
     return h.hexdigest()
 
@@ -170,16 +168,19 @@ def main():
     nontrivial = set()
     pops = set()
     minimised = 0
+    cold_group, cold_cache = None, {}
     for run in range(lo, hi):
         if a.wall_cap and time.monotonic() - t0 > a.wall_cap:
             out["truncated"] = True
             break
         rs = gen.run_seed(a.seed, a.shard, run)
-        prog = gen.gen_program(random.Random(rs), fclass)
+        prog, envs, group = gen.program_for_run(a.seed, a.shard, run, fclass)
         steps = prog["steps"]
         cfg = prog["config"]
-        envs = gen.make_envs(steps)
-        res = sh.evaluate_program(steps, envs, fuel=fuel, shims=cfg["shims"], skip_trivial=True, max_probes=40)
+        if group != cold_group:
+            cold_group, cold_cache = group, {}  # cold references are shared by the schedules of one script set
+        res = sh.evaluate_program(steps, envs, fuel=fuel, shims=cfg["shims"], skip_trivial=True, max_probes=40,
+                                  cold_cache=cold_cache)
         if res["harness"]:
             out["harness"].append({"run": run, "what": res["harness"]})
             continue
